@@ -51,6 +51,32 @@ Proof. exact (sort_fit_perm l). Qed.
 Theorem C07_check_all : forallb (fun p => c07_check (snd p)) all_progs = true.
 Proof. vm_compute. reflexivity. Qed.
 
+(* ---------------------------------------------------------------- histories of tasks on one space
+   The invariant is its own pre- and postcondition, so it survives any finite sequence of tasks on one space
+   (any programs, in particular different optimizers one after the other; run() re-creates its local arrays). *)
+Inductive tasks7 (lbs ubs : list Z) (f : contents -> Z) (hk : st -> st) (n_iter : nat) (sp : list nat) :
+  list stmt -> st -> list event -> st -> Prop :=
+| tasks7_nil x : tasks7 lbs ubs f hk n_iter sp [] x [] x
+| tasks7_cons p ps x lc o x1 evs1 o1 evs2 x2 :
+    Forall (fun c => shp c = sp) lc ->
+    run lbs ubs f hk n_iter okc_std p o (with_loc x lc) = Some (x1, evs1, o1) ->
+    tasks7 lbs ubs f hk n_iter sp ps x1 evs2 x2 ->
+    tasks7 lbs ubs f hk n_iter sp (p :: ps) x (evs1 ++ evs2) x2.
+
+Theorem C07_task_histories (ps : list stmt) lbs ubs f hk n_iter n sp x0 evs x' :
+  (forall x, Inv n sp x -> Inv n sp (hk x)) ->
+  Inv n sp x0 ->
+  tasks7 lbs ubs f hk n_iter sp ps x0 evs x' ->
+  Inv n sp x' /\ Forall (ev_inv n sp) evs.
+Proof.
+  intros Hhk H0 Ht. induction Ht as [x|p ps x lc o x1 evs1 o1 evs2 x2 Hlc Hrun Ht IH].
+  - split; [exact H0|constructor].
+  - assert (Hs : Inv n sp (with_loc x lc)).
+    { destruct H0 as [A B C D E]. constructor; simpl; assumption. }
+    destruct (C07_ir_inv p lbs ubs f hk n_iter n sp o (with_loc x lc) x1 evs1 o1 Hhk Hs Hrun) as [H1 H2].
+    destruct (IH H1) as [H3 H4]. split; [exact H3|]. apply Forall_app. split; assumption.
+Qed.
+
 (* ---------------------------------------------------------------- non-vacuity *)
 Definition ag (v : Z) (i : nat) (ft : Z) : agent := {| apos := [[Some v]]; aid := i; afit := ft |}.
 
